@@ -5,6 +5,10 @@ package environment
 //verif:pkg core/environment
 
 import (
+	"github.com/AliceO2Group/Control/common/event"
+	"github.com/AliceO2Group/Control/core/task"
+	"github.com/AliceO2Group/Control/core/workflow"
+	mesos "github.com/mesos/mesos-go/api/v1/lib"
 	"time"
 
 	"github.com/AliceO2Group/Control/core/workflow/callable"
@@ -41,6 +45,7 @@ func (h c08Hook) spec() fenvHook {
 //   - the state machine does not move past an await point before the awaited call returned;
 //   - a call whose await point belongs to a later transition stays pending and is cancelled by teardown;
 //     every other started call is collected (nothing of it is left pending).
+//
 //verif:entry HarnessTriggerAndAwaitOrder unwind=64 preempt=1 reach=ordered,pending stub=github.com/AliceO2Group/Control/common/utils.TimeTrack nosched=github.com/AliceO2Group/Control/core/the.mu
 //verif:thorough HarnessTriggerAndAwaitOrder preempt=1 paths=1000000
 func HarnessTriggerAndAwaitOrder() {
@@ -112,6 +117,7 @@ func HarnessTriggerAndAwaitOrder() {
 
 // Hooks of equal weight at the same moment are started together: each of the two calls only returns once
 // the other one has started. If they were run one after the other this would deadlock (reported).
+//
 //verif:entry HarnessEqualWeightStartedTogether unwind=64 preempt=2 reach=together stub=github.com/AliceO2Group/Control/common/utils.TimeTrack nosched=github.com/AliceO2Group/Control/core/the.mu
 func HarnessEqualWeightStartedTogether() {
 	p := c08Point(vrt.IntRange("point", 0, 11))
@@ -134,6 +140,7 @@ func HarnessEqualWeightStartedTogether() {
 }
 
 // The trigger expression "name(+|-)weight": no sign means weight 0, an unparsable weight means 0.
+//
 //verif:entry HarnessParseTriggerExpression unwind=16 reach=signed,plain
 func HarnessParseTriggerExpression() {
 	name := []string{"before_CONFIGURE", "leave_RUNNING", "enter_DEPLOYED", "after_GO_ERROR"}[vrt.IntRange("name", 0, 3)]
@@ -169,6 +176,7 @@ func HarnessParseTriggerExpression() {
 // before the await point is reached (CONFIGURE, RESET, CONFIGURE, START_ACTIVITY; or a CONFIGURE whose task
 // part fails and is retried, awaited at after_CONFIGURE): every start is a call of its own and each one is
 // collected at the await point - the failure of either start stops the state machine there.
+//
 //verif:entry HarnessCallStartedTwice unwind=64 preempt=1 reach=reset-cycle,retried stub=github.com/AliceO2Group/Control/common/utils.TimeTrack nosched=github.com/AliceO2Group/Control/core/the.mu
 func HarnessCallStartedTwice() {
 	failing := vrt.IntRange("failing.start", 0, 2) // which start of the call returns an error (0 = none)
@@ -231,6 +239,7 @@ func HarnessCallStartedTwice() {
 // A weight at which a call is only awaited (nothing is triggered there) and a hook triggered at a greater weight
 // of the same moment: the later hook starts only after the awaited call was collected. The awaited call was started
 // at an earlier moment or at a lower weight of the same moment.
+//
 //verif:entry HarnessAwaitOnlyWeight unwind=64 preempt=1 reach=ordered stub=github.com/AliceO2Group/Control/common/utils.TimeTrack nosched=github.com/AliceO2Group/Control/core/the.mu
 func HarnessAwaitOnlyWeight() {
 	m := vrt.IntRange("moment", 0, 3)
@@ -270,6 +279,7 @@ func HarnessAwaitOnlyWeight() {
 // Two calls started at the same point and awaited at two different weights of one later moment (the first one fails):
 // both are collected - the failure is reported, cancelling the transition if the moment lies before the task part -
 // and nothing stays pending.
+//
 //verif:entry HarnessTwoDeferredAwaits unwind=64 preempt=1 reach=cancelled,reported stub=github.com/AliceO2Group/Control/common/utils.TimeTrack nosched=github.com/AliceO2Group/Control/core/the.mu
 func HarnessTwoDeferredAwaits() {
 	m := vrt.IntRange("await.moment", 1, 3) // leave_DEPLOYED, enter_CONFIGURED, after_CONFIGURE
@@ -297,4 +307,64 @@ func HarnessTwoDeferredAwaits() {
 		vrt.Reach("reported")
 	}
 	vrt.Assert(rec.count("call:root.a:end") == 1, "the-failing-call-ran")
+}
+
+// An integration call and a hook task (a task run as a hook) at the same moment, each at its own weight, through
+// the real state machine: they fire in the order of their weights, at equal weight the call is started (and
+// awaited) before the task is triggered; a failing critical hook task cancels the transition if the moment lies
+// before the task part, and hooks at later weights of the same half of the moment do not run.
+//
+//verif:entry HarnessCallsAndHookTasksByWeight unwind=64 preempt=1 timers=lazy reach=ordered,cancelled stub=github.com/AliceO2Group/Control/common/utils.TimeTrack nosched=github.com/AliceO2Group/Control/core/the.mu
+func HarnessCallsAndHookTasksByWeight() {
+	m := vrt.IntRange("moment", 0, 3)
+	wc, wt := vrt.IntRange("call.weight", 0, 2), vrt.IntRange("task.weight", 0, 2)
+	taskFails := vrt.Bool("hook.task.exits.non.zero")
+	world := task.VerifNewWorld([]string{"h"}, make(chan event.Event, 16), nil)
+	rec := &fenvRec{}
+	env := fenvNew(&fenvConf{}, rec, "DEPLOYED", []fenvHook{{name: "c", trigger: c08Moments[m] + c08Weights[wc], critical: true}})
+	hookRole := workflow.VerifHookTaskRole("h", c08Moments[m]+c08Weights[wt], true, world.Tasks[0])
+	workflow.VerifSetTimeout(hookRole, "300ms")
+	roles := append([]workflow.Role{}, env.workflow.GetRoles()...)
+	roles = append(roles, hookRole)
+	env.workflow = workflow.NewAggregatorRole("root", roles)
+	workflow.LinkChildrenToParents(env.workflow)
+	workflow.VerifAttach(env.workflow, env.wfAdapter)
+	env.hookHandlerF = func(hs task.Tasks) error {
+		rec.add("trigger:h")
+		go func() {
+			<-time.After(10 * time.Millisecond)
+			e := &event.BasicTaskTerminated{FinalMesosState: mesos.TASK_FINISHED, VoluntaryTermination: true}
+			if taskFails {
+				e.ExitCode = 1
+			}
+			e.Origin.TaskId = mesos.TaskID{Value: hs[0].GetTaskId()}
+			env.NotifyEvent(e)
+		}()
+		return nil
+	}
+	err := env.TryTransition(fenvTransition{name: "CONFIGURE", rec: rec})
+	call, trig := rec.index("launch:root.c"), rec.index("trigger:h")
+	sameHalf := (wc == 0) == (wt == 0) // negative weights run before, the others after the built-in work of the moment
+	cancelling := taskFails && m < 2
+	vrt.Assert(trig >= 0 && rec.count("trigger:h") == 1, "hook-task-is-triggered-exactly-once")
+	if taskFails {
+		vrt.Assert(err != nil, "failing-critical-hook-task-is-reported")
+		if cancelling {
+			vrt.Assert(env.CurrentState() == "DEPLOYED" && rec.count("do:CONFIGURE:begin") == 0, "cancelled-transition-keeps-the-source-state")
+			vrt.Reach("cancelled")
+		}
+		if wc > wt && (sameHalf || cancelling) {
+			vrt.Assert(call < 0, "later-weights-of-a-moment-are-skipped-after-a-critical-failure")
+		}
+	} else {
+		vrt.Assert(err == nil && env.CurrentState() == "CONFIGURED", "transition-with-successful-hooks-succeeds")
+	}
+	if call >= 0 {
+		if wc <= wt {
+			vrt.Assert(call < trig, "hooks-fire-in-the-order-of-their-weights-calls-before-tasks-at-equal-weight")
+		} else {
+			vrt.Assert(trig < call, "hooks-fire-in-the-order-of-their-weights-calls-before-tasks-at-equal-weight")
+		}
+		vrt.Reach("ordered")
+	}
 }
